@@ -81,6 +81,10 @@ void *mremap_wrapper(void *old_address __attribute__((__unused__)),
  * Active attempts to check for reader Q.S. before calling sleep().
  */
 #define RCU_QS_ACTIVE_ATTEMPTS 100
+#ifdef URCU_VERIF_RCU_QS_ACTIVE_ATTEMPTS
+#undef RCU_QS_ACTIVE_ATTEMPTS
+#define RCU_QS_ACTIVE_ATTEMPTS URCU_VERIF_RCU_QS_ACTIVE_ATTEMPTS
+#endif
 
 static
 int urcu_bp_refcount;
